@@ -8,8 +8,14 @@ import sys
 FORMATS = ["classic", "bytes", "extended", "extended-bytes", "xasm", "header"]
 
 
-def _z(s):
-    return [ord(ch) for ch in s]
+import re
+
+ADDR = re.compile(r"0x[0-9a-fA-F]+")
+
+
+def _noaddr(s):
+    """object addresses are not content: a code-object constant is shown with the id() of whatever object stands for it"""
+    return ADDR.sub("0xX", s)
 
 
 def _records(bc, co, opc):
@@ -22,7 +28,7 @@ def _records(bc, co, opc):
     recs = []
     for x in get_instructions_bytes(co.co_code, opc, co.co_varnames, co.co_names, co.co_consts, cells, line_starts,
                                     line_offset=bc._line_offset, exception_entries=bc.exception_entries):
-        recs.append({"off": x.offset, "op": x.opcode, "name": x.opname, "arg": x.arg, "repr": (x.argrepr if isinstance(x.argrepr, str) else repr(x.argrepr)) if x.argrepr else "",
+        recs.append({"off": x.offset, "op": x.opcode, "name": x.opname, "arg": x.arg, "repr": _noaddr(x.argrepr if isinstance(x.argrepr, str) else repr(x.argrepr)) if x.argrepr else "",
                      "argval": x.argval if isinstance(x.argval, int) and not isinstance(x.argval, bool) else None,
                      "target": bool(x.is_jump_target), "line": x.starts_line, "size": x.inst_size, "hasarg": bool(x.has_arg)})
     return recs
@@ -85,13 +91,13 @@ def op_listing_file(c):
             if not c.get("pieces"):
                 pass
             elif len(text) <= c.get("max_text", 20000) and not any(_bad_record(x) for x in recs):
-                pieces.append({"name": str(k.co_name), "recs": recs, "text": text})
+                pieces.append({"name": str(k.co_name), "recs": recs, "text": _noaddr(text)})
             else:
                 pieces.append({"name": str(k.co_name), "skipped": True, "n": len(recs)})
             for cst in k.co_consts:
                 if iscode(cst):
                     queue.append(cst)
-    a, b = out.getvalue(), exp.getvalue()
+    a, b = _noaddr(out.getvalue()), _noaddr(exp.getvalue())
     res["stream_ok"] = a == b
     if a != b:
         i = next((j for j in range(min(len(a), len(b))) if a[j] != b[j]), min(len(a), len(b)))
@@ -121,5 +127,5 @@ def op_listing_synth(c):
         import traceback
         tb = traceback.extract_tb(e.__traceback__)[-1]
         return {"raised": type(e).__name__, "msg": str(e)[:200], "where": "%s:%s" % (tb[0], tb[1])}
-    return {"raised": None, "stdout": so.getvalue()[:500], "stderr": se.getvalue()[:500], "recs": recs, "text": text,
+    return {"raised": None, "stdout": so.getvalue()[:500], "stderr": se.getvalue()[:500], "recs": recs, "text": _noaddr(text),
             "bad": any(_bad_record(x) for x in recs)}
